@@ -293,13 +293,14 @@ class P(Prop):
         ("TracklibVerif.Props.C18", "TV.C18.match_fdtw_real_correct", "match(..., FDTW, p = x): same score as DTW and a coupling realising it, when B**x >= 0 on non-negative distances (the real power function is) and big is above every candidate cost"),
         ("TracklibVerif.Props.C18", "TV.C18.compare_real_value", "compare(DTW | FDTW, p = x) is match followed by (score/nb_links)**(1.0/x); errors are those of match"),
         ("TracklibVerif.Props.C18", "TV.C18.cost_unit_invariant_real", "every point distance multiplied by c > 0, accumulation A + B**x: same coupling, score multiplied by c**x, for a power function multiplicative at c (the real one; exact arithmetic)"),
+        ("TracklibVerif.Props.C18", "TV.C18.session_history_irrelevant_real", "session_history_irrelevant for the sessions the driver runs (runSeqX: p any positive number in any form), whatever B**x computes"),
         ("TracklibVerif.Props.C18", "TV.C18.match_real_history", "matchCallX (any p, modes DTW / FRECHET) on a track1 carrying the feature rows of an earlier matching returns what it returns on the same positions without features"),
     ]
     partial = []
     open_statements = ["IEEE rounding: the theorems are over a linear order / ordered field; on the float runs the oracle compares with relative tolerance 1e-9 (no absolute tolerance: the check is the same in every unit of the coordinates)",
-                       "session_history_irrelevant excludes the FDTW modes (3 / 107): their coupling is valid only under the hypotheses of match_fdtw_correct; match_fdtw_history is the single-call statement",
+                       "session_history_irrelevant / session_history_irrelevant_real exclude the FDTW modes (3 / 107): their coupling is valid only under the hypotheses of match_fdtw_correct; match_fdtw_history is the single-call statement",
                        "the swap clause on GeoCoords tracks with dim = 2 is false for fixes of different heights (finding geo-2d-distance-asymmetric): match_onesided is what holds there",
-                       "exponents that are not natural numbers (p = 0.5, 1.5, ...): B**x is a parameter of the model (Float.pow in the driver); match_real_correct holds for any such function, match_fdtw_real_correct needs B**x >= 0 on B >= 0; unit_invariant (coordinates) and session_history_irrelevant are stated for natural exponents and infinity only (cost_unit_invariant_real / match_real_history are the statements for the other exponents)",
+                       "exponents that are not natural numbers (p = 0.5, 1.5, ...): B**x is a parameter of the model (Float.pow in the driver); match_real_correct holds for any such function, match_fdtw_real_correct needs B**x >= 0 on B >= 0; unit_invariant (coordinates multiplied by c) is stated for natural exponents and infinity only (cost_unit_invariant_real is the statement on the point distances for the other exponents)",
                        "a negative or NaN exponent, a dim other than 1, 2, 3 or a callable (`_distance` returns None), tracks whose positions are of two different classes, and STANDARD_PROJ = 2 are neither modelled nor generated"]
     modelled = ("algo/comparison.py: match and compare as called — dispatch on the integer mode constants (2/3/4, 106/107/108; UnknownModeError otherwise), "
                 "_dtw_matching / _fdtw_matching, _p2weight as its cascade of four tests on (str(type(p)), value of p) with UnboundLocalError when none fires, "
@@ -318,7 +319,7 @@ class P(Prop):
             "the same shapes in every unit: walks whose unit is 1e-6 .. 1e7 (origin up to 1000 units away), lattices scaled by 2^-20 .. 2^23 (ties survive), and `neardup` walks where four steps in ten are 1e-3 .. 1e-9 of a unit "
             "(or one ulp) — consecutive fixes that differ by less than any fixed tolerance — and one in ten repeats the fix; positions of class ENUCoords (83%), GeoCoords (12%: lon/lat walks of 1e-5 .. 1e-3 degree per step, "
             "steps down to 1e-9 degree, equal heights where the swapped call is compared) and ECEFCoords (5%), including the dim for which _distance is not defined on the class (AttributeError: correspondence only); dim as 1/2/3 or "
-            "(one call in ten) in its function form (Manhattan, Chebyshev, a non-symmetric callable: no swap clause for that one); coordinates as Python floats, Python ints or numpy.float64 (sessions), modes DTW/FDTW/FRECHET, "
+            "(one call in ten) in its function form (Manhattan, Chebyshev, a non-symmetric callable: no swap clause for that one); coordinates as Python floats, Python ints, numpy.int64 or numpy.float64, modes DTW/FDTW/FRECHET, "
             "one case in ten through compare(). Sessions (kind seq): 1..4 calls of match / compare on 2..4 shared tracks, the first or second argument being "
             "a track or what an earlier match returned (55% / 20%), 12% of the tracks already carrying diff/pair/ex/ey features (lists, scalars, a subset); "
             "p = 0, 1, 2, 3, inf in every form (Python int/float, numpy int8..64 / uint8..64 / intc / float16..64, math.inf / numpy.inf / numpy.longdouble(inf), "
@@ -449,7 +450,7 @@ class P(Prop):
             b = self.rand_track(rng, n2, style, fr)
             extra = {} if cls == "enu" else {"cls": cls}
             if cls == "enu" and style in ("lat3", "lat2", "line") and rng.random() < 0.3:
-                extra["ct"] = "int"      # whole-number coordinates handed over as Python ints
+                extra["ct"] = rng.choice(["int", "int", "np.int64"])      # whole-number coordinates handed over as Python ints / numpy.int64
             if k % 10 == 9:
                 out.append({"kind": "cmp", "mode": mode, "p": ps[0], "dim": dim, "a": a, "b": b, **extra})
             else:
@@ -530,8 +531,8 @@ class P(Prop):
         fr = self.rand_frame(rng, style)
         tracks = [self.rand_track(rng, rng.randint(1, hi), style, fr) for _ in range(nt)]
         pre = [rng.choice(["lists", "scalars", "partial"]) if rng.random() < 0.12 else "none" for _ in range(nt)]
-        ct = rng.choice(["float", "float", "np.float64", "int"]) if cls == "enu" else "float"
-        if ct == "int" and not all(float(v).is_integer() for t in tracks for q in t for v in q):
+        ct = rng.choice(["float", "float", "float", "np.float64", "int", "int", "np.int64"]) if cls == "enu" else "float"
+        if ct in ("int", "np.int64") and not all(float(v).is_integer() for t in tracks for q in t for v in q):
             ct = "float"
         steps, okres = [], []
         for k in range(rng.choice([1, 1, 2, 2, 3, 4])):
@@ -571,7 +572,7 @@ class P(Prop):
         if cls != "enu":
             case["cls"] = cls
         if ct != "float":
-            case["ct"] = ct      # the coordinates are handed to ENUCoords as Python ints / numpy.float64 instead of Python floats
+            case["ct"] = ct      # the coordinates are handed to ENUCoords as Python ints / numpy.int64 / numpy.float64 instead of Python floats
         return case
 
     def rand_positions(self, rng, dim, style, single):
@@ -772,7 +773,7 @@ class P(Prop):
             from tracklib.core.obs import Obs
             from tracklib.core.obs_time import ObsTime
             from tracklib.core.track import Track
-            conv = int if ct == "int" else self.np.float64
+            conv = {"int": int, "np.int64": self.np.int64, "np.float64": self.np.float64}[ct]
             t = Track([Obs(ENUCoords(conv(x), conv(y), conv(z)), ObsTime()) for (x, y, z) in pts(tr)])
         n = t.size()
         if pre == "lists":
@@ -1329,13 +1330,27 @@ class P(Prop):
         # the quick scopes again (other random draws) rather than the 290 k cases of the thorough tier
         return self.cases(rng, "quick")
 
+    @staticmethod
+    def mutated_point(rng, cls, tr, others):
+        """a neighbour of a track for the failing-input search: one fix replaced. ENUCoords: a point of the lattice {0,1,2}^3 (ties).
+        GeoCoords / ECEFCoords: a copy of another fix of the case moved by about a metre (1e-5 degree), the height kept — the tracks stay
+        where they are: on GeoCoords the swap clause (dim = 2) is asked only of fixes of equal height a few hundred metres apart at most
+        (`geo-level`), where `distance2DTo` is symmetric up to rounding (finding geo-2d-distance-asymmetric otherwise)"""
+        if cls == "enu":
+            return [float(rng.randint(0, 2)), float(rng.randint(0, 2)), float(rng.randint(0, 2))]
+        q = list(rng.choice(others))
+        u = 1e-5 if cls == "geo" else 1.0
+        return [q[0] + rng.uniform(-1, 1) * u, q[1] + rng.uniform(-1, 1) * u, q[2] + (0.0 if cls == "geo" else rng.uniform(-1, 1) * u)]
+
     def mutate(self, case, rng):
+        cls = case.get("cls", "enu")
         if case["kind"] == "seq":
             for _ in range(20):
                 trs = [[list(q) for q in pts(t)] for t in case["tracks"]]
+                allp = [q for tr in trs for q in tr]
                 for tr in trs:
                     if tr:
-                        tr[rng.randrange(len(tr))] = [float(rng.randint(0, 2)), float(rng.randint(0, 2)), float(rng.randint(0, 2))]
+                        tr[rng.randrange(len(tr))] = self.mutated_point(rng, cls, tr, allp)
                 yield dict(case, tracks=trs)
             return
         a, b = pts(case["a"]), pts(case["b"])
@@ -1346,5 +1361,5 @@ class P(Prop):
             u = [list(q) for q in b]
             for tr in (t, u):
                 k = rng.randrange(len(tr))
-                tr[k] = [float(rng.randint(0, 2)), float(rng.randint(0, 2)), float(rng.randint(0, 2))]
+                tr[k] = self.mutated_point(rng, cls, tr, a + b)
             yield dict(case, a=t, b=u)
